@@ -88,7 +88,13 @@ pub enum Step {
     Tasks { job: u32, count: u32, rq: Rq },
     CancelJob { job: u32 },
     /// a worker that is not managed by autoalloc joins / leaves the tako core
-    CoreWorker { key: u32, shape: Shape },
+    CoreWorker {
+        key: u32,
+        shape: Shape,
+        /// worker group: 0 = "default", n = "g<n>" (multi-node tasks need workers of one group)
+        #[serde(default)]
+        group: u32,
+    },
     CoreWorkerGone { key: u32 },
     JobSubmitted { job: u32 },
     /// scheduling tick (`perform_submits` if a queue is active)
